@@ -1074,6 +1074,26 @@ fn h_drop_mat2x2_plain() {
 fn h_drop_mat2x2_map() {
     ck_drop(&[2, 2], 4, true);
 }
+// ---------------- member-of-range on a byte array (optimised `∊⇡n`), src/algorithm/dyadic/mod.rs ----------------
+//@ id=C05.e3.memberof_range.byte_arm props=C05 level=bounded tier=quick budget=900 bound="byte array of shape [3], all truthful mark sets, integer bound in 0..=5 or negative" desc="the byte arm of Value::memberof_range rewrites the elements in place: each becomes 1 iff it lies below the bound, and the marks the result carries are truthful"
+#[kani::proof]
+#[kani::unwind(8)]
+fn h_memberof_range_byte_arm() {
+    let (a, data, _f, has_keys) = mk(&[3], 3);
+    kani::assume(truthful(&a) && !has_keys);
+    let b: i8 = kani::any();
+    kani::assume(b >= -2 && b <= 5);
+    let bound = b as f64;
+    let r = memberof_range_byte_arm(a, bound);
+    assert!(same_usize(&r.shape, &[3]) && r.data.len() == 3);
+    let mut i = 0;
+    while i < 3 {
+        let want = if bound > 0.0 && (data[i] as f64) < bound { 1 } else { 0 };
+        assert!(r.data[i] == want);
+        i += 1;
+    }
+    assert!(truthful(&r));
+}
 //@ id=C05.e3.meta.mark_helpers props=C05,C09 level=complete tier=quick budget=600 desc="ArrayMeta mark helpers at the bit level: take_sorted_flags / take_value_flags return and clear exactly their group; or_sorted_flags sets only sortedness bits; mark_sorted_* set or clear exactly one bit; reset_flags clears all; an absent meta stays absent unless a bit must be set"
 #[kani::proof]
 fn h_meta_helpers() {
